@@ -297,6 +297,17 @@ func extraPrograms() []progCase {
 			out = append(out, progCase{Name: "tag:" + tag + ":" + shape, Src: src, Files: f, Ctx: map[string]pongo2.Context{"c1": c}})
 		}
 	}
+	// one program per registered filter (registry driven): shared state inside a filter is shared by all executions
+	for _, f := range pongo2.VerifRegisteredFilters() {
+		if f == "random" {
+			continue
+		}
+		expr, _, _ := filterExpr(f)
+		src := "{% for i in l3 %}{{ " + expr + " }}{{ x|" + f + " }}{% endfor %}{% filter " + f + " %}{{ x }} a<b>{% endfilter %}"
+		c := ctx()
+		c["l3"] = []interface{}{1, 2, 2}
+		out = append(out, progCase{Name: "filter:" + f, Src: src, Files: files, Ctx: map[string]pongo2.Context{"c1": c}})
+	}
 	out = append(out, progCase{Name: "extends", Src: `{% extends "/base0" %}{% block bb %}{% cycle "a" "b" %}{{ block.Super }}{% endblock %}`,
 		Files: files, Ctx: map[string]pongo2.Context{"c1": ctx()}})
 	out = append(out, progCase{Name: "trim", Src: "{% if 1 %}\n\n\n  x  {% endif %}\n\n  {% set a=1 %}\n\ny", Files: files, Ctx: map[string]pongo2.Context{"c1": ctx()}})
@@ -576,7 +587,7 @@ func cmdC05Free(args []string) {
 		// keep all registry-driven programs, sample the rest
 		var keep []progCase
 		for i, p := range progs {
-			if strings.HasPrefix(p.Name, "tag:") || p.Name == "extends" || p.Name == "trim" || (i*7919+seed)%(len(progs)/maxp+1) == 0 {
+			if strings.HasPrefix(p.Name, "tag:") || strings.HasPrefix(p.Name, "filter:") || p.Name == "extends" || p.Name == "trim" || (i*7919+seed)%(len(progs)/maxp+1) == 0 {
 				keep = append(keep, p)
 			}
 		}
